@@ -81,8 +81,9 @@ Theorem C12_usage : forall f, f < 256 -> usage_string (flags_of_octet f) = spec_
 Proof. exact usage_exact. Qed.
 Print Assumptions C12_usage.
 
-(* dates: Created is the creation time of the (self- / binding) signature; the expiry is the
-   creation time of the KEY plus the lifetime; an absent subpacket and the value 0 mean never *)
+(* dates of one signature: Created is the creation time of the signature (shown for an identity:
+   its self-signature, as GnuPG's uid record); the expiry is the creation time of the KEY plus the
+   lifetime; an absent subpacket and the value 0 mean never *)
 Theorem C12_dates : forall s key_created,
   describe_sig fixed s key_created =
     [(bs "Usage", usage_string (sc_flags s));
@@ -94,6 +95,27 @@ Theorem C12_dates : forall s key_created,
                     end)].
 Proof. exact dates_exact. Qed.
 Print Assumptions C12_dates.
+
+(* an identity shows exactly the three attributes of its verified self-signature, the expiry
+   counted from the creation time of the primary key *)
+Theorem C12_identity_attributes : forall primary i,
+  i_attrs (identity_info fixed primary i) = describe_sig fixed (id_self i) (pk_created primary).
+Proof. exact identity_attrs_exact. Qed.
+Print Assumptions C12_identity_attributes.
+
+(* a subkey shows usage and lifetime of its binding signature, creation date and expiry counted
+   from the creation time in the subkey packet (as `gpg --list-keys` does) *)
+Theorem C12_subkey_dates : forall s,
+  subkey_sig_attrs fixed s =
+    [(bs "Usage", usage_string (sc_flags (sk_sig s)));
+     (bs "Created", fmt_date_utc (pk_created (sk_key s)));
+     (bs "Expires", match sc_keylife (sk_sig s) with
+                    | None => bs "never"
+                    | Some 0 => bs "never"
+                    | Some l => fmt_date_utc (pk_created (sk_key s) + l)
+                    end)].
+Proof. exact subkey_dates_exact. Qed.
+Print Assumptions C12_subkey_dates.
 
 (* time.Duration(lifetime) * time.Second cannot overflow for 32-bit values *)
 Theorem C12_lifetime_no_overflow : forall c l, c < 2 ^ 32 -> l < 2 ^ 32 ->
@@ -147,3 +169,20 @@ Theorem C12_F37_refuted : exists k, parse_public_key legacy no_ec f37_body = Ok 
   key_hash_input k <> 153 :: be16 (lenN f37_body) ++ f37_body.
 Proof. exact f37_legacy. Qed.
 Print Assumptions C12_F37_refuted.
+
+(* F38: unverified signatures of other keys contributed Usage / Created / Expires lines to an identity *)
+Theorem C12_F38_refuted :
+  map fst (i_attrs (identity_info legacy ex_key f38_identity)) =
+    [bs "Usage"; bs "Created"; bs "Expires"; bs "Usage"; bs "Created"; bs "Expires"] /\
+  map fst (i_attrs (identity_info fixed ex_key f38_identity)) = [bs "Usage"; bs "Created"; bs "Expires"].
+Proof. split; [exact f38_legacy | exact f38_fixed]. Qed.
+Print Assumptions C12_F38_refuted.
+
+(* F39: a subkey created on 2020-01-01 and re-bound on 2020-06-01 was shown as created on 2020-06-01 *)
+Theorem C12_F39_refuted :
+  subkey_sig_attrs legacy f39_subkey =
+    [(bs "Usage", bs "encrypt communications, encrypt storage"); (bs "Created", bs "2020-06-01"); (bs "Expires", bs "2023-06-01")] /\
+  subkey_sig_attrs fixed f39_subkey =
+    [(bs "Usage", bs "encrypt communications, encrypt storage"); (bs "Created", bs "2020-01-01"); (bs "Expires", bs "2023-06-01")].
+Proof. split; [exact f39_legacy | exact f39_fixed]. Qed.
+Print Assumptions C12_F39_refuted.
